@@ -14,17 +14,43 @@ use swift_mt_message::traits::SwiftMessageBody;
 pub struct Contents {
     pub valid: BTreeMap<String, Vec<String>>,
     pub invalid: BTreeMap<String, Vec<String>>,
+    /// boundary-shaped contents from the FieldFormats shape space (in the documented language,
+    /// accepted by the field parser and reproduced exactly): used by content policies > 0
+    pub pool: BTreeMap<String, Vec<String>>,
 }
 
 pub const FOREIGN_TAG: &str = "99Z";
 
 impl Contents {
+    /// Add the in-language contents of a FieldFormats case file (labels naming boundary shapes).
+    pub fn load_pool(&mut self, path: &str) -> usize {
+        let f = match std::fs::File::open(path) { Ok(f) => std::io::BufReader::new(f), Err(_) => return 0 };
+        let mut n = 0;
+        for line in f.lines().map_while(|l| l.ok()) {
+            let c: Value = match serde_json::from_str(&line) { Ok(v) => v, Err(_) => continue };
+            if c["accept"] != true { continue; }
+            let label = c["l"].as_str().unwrap_or("");
+            if !(label.is_empty() || label.contains("max") || label.contains("min") || label.contains("absent") || label.contains("alt") || label.contains("1line") || label.contains("mid=")) { continue; }
+            if label.contains('+') || label.contains("min-1") { continue; }
+            let tag = c["tag"].as_str().unwrap_or("").to_string();
+            let content: String = c["s"].as_array().map(|a| a.iter().filter_map(|x| x.as_str()).collect::<Vec<_>>().concat()).unwrap_or_default();
+            if content.contains('<') { continue; }
+            if let Ok(Some(Ok(o))) = guarded(|| crate::registry::parse_by_tag(&tag, &content)) {
+                if lf(&o.ser) == format!(":{}:{}", tag, content) {
+                    let e = self.pool.entry(tag).or_default();
+                    if !e.contains(&content) { e.push(content); n += 1; }
+                }
+            }
+        }
+        n
+    }
+
     /// Load the table and keep only entries the field parsers treat as declared
     /// (valid: accepted and re-serialised identically; invalid: rejected).
     pub fn load(path: &str) -> (Contents, Vec<Value>) {
         let raw: Value = serde_json::from_str(&std::fs::read_to_string(path).expect("contents"))
             .expect("contents json");
-        let mut c = Contents { valid: BTreeMap::new(), invalid: BTreeMap::new() };
+        let mut c = Contents { valid: BTreeMap::new(), invalid: BTreeMap::new(), pool: BTreeMap::new() };
         let mut notes = Vec::new();
         for (tag, v) in raw.as_object().unwrap() {
             if tag.starts_with('_') {
@@ -124,7 +150,8 @@ pub fn concretise(c: &Contents, toks: &[AbsTok], policy: usize) -> Option<Vec<(S
     let mut seen: BTreeMap<String, usize> = BTreeMap::new();
     for t in toks {
         let tag = concrete_tag(&t.tag).to_string();
-        let list = if t.ok { c.valid.get(&tag)? } else { c.invalid.get(&tag)? };
+        let from_pool = t.ok && policy >= 2 && c.pool.get(&tag).map(|p| !p.is_empty()).unwrap_or(false);
+        let list = if from_pool { c.pool.get(&tag)? } else if t.ok { c.valid.get(&tag)? } else { c.invalid.get(&tag)? };
         if list.is_empty() {
             return None;
         }
@@ -369,7 +396,8 @@ pub fn run(args: &[String]) -> i32 {
     let policies: usize = arg(args, "--policies").and_then(|s| s.parse().ok()).unwrap_or(1);
     let contents_path = arg(args, "--contents").unwrap_or("/verif/data/contents.json");
     let seed = seed_from_env();
-    let (contents, content_notes) = Contents::load(contents_path);
+    let (mut contents, content_notes) = Contents::load(contents_path);
+    let pool_size = arg(args, "--pool").map(|p| contents.load_pool(p)).unwrap_or(0);
 
     let mut props: BTreeMap<&str, Tally> = BTreeMap::new();
     for p in ["C01", "C02", "C03", "C09"] {
@@ -456,6 +484,24 @@ pub fn run(args: &[String]) -> i32 {
                     if a.trim_matches('\n') != b.trim_matches('\n') {
                         let sig = format!("C03|MT{}|bytes-differ", c.mt);
                         t.violations.push(json!({"sig": sig, "replay": replay, "detail": {"ser": out.body_ser}}));
+                    }
+                    // component placement: an identifier / account line (first line starting with '/') of a
+                    // multi-line party field must not be filed among the name-and-address lines
+                    fn in_arrays(v: &Value, line: &str) -> bool {
+                        match v {
+                            Value::Array(a) => a.iter().any(|x| x.as_str() == Some(line) || in_arrays(x, line)),
+                            Value::Object(o) => o.values().any(|x| in_arrays(x, line)),
+                            _ => false,
+                        }
+                    }
+                    for (tag, content) in &fields {
+                        let line1 = content.split('\n').next().unwrap_or("");
+                        if content.contains('\n') && line1.starts_with('/') && line1.len() <= 35
+                            && ["50", "52", "53", "54", "55", "56", "57", "58", "59"].contains(&&tag[..2])
+                            && in_arrays(&out.json["fields"], line1) {
+                            let sig = format!("C03|MT{}|component-misfiled|{}", c.mt, tag);
+                            t.violations.push(json!({"sig": sig, "replay": replay, "detail": {"line": line1}}));
+                        }
                     }
                 }
                 if t.samples.len() < 3 {
@@ -568,7 +614,7 @@ pub fn run(args: &[String]) -> i32 {
         "total_executions": total, "distinct_cases": distinct.len(), "distinct_nontrivial": nontrivial,
         "skipped_unconcretisable": skipped_unconcretisable, "per_type": per_type,
         "traces": n_traces, "trace_events": n_trace_events,
-        "content_notes": content_notes, "props": pj, "seed": seed,
+        "content_notes": content_notes, "pool_contents": pool_size, "props": pj, "seed": seed,
     });
     std::fs::write(out_path, serde_json::to_string(&summary).unwrap()).expect("write out");
     0
